@@ -1,5 +1,195 @@
 import Rivaas.Proto
-/- Driver for C02 (stub: not built yet) -/
-def main : IO UInt32 := do
-  IO.eprintln "driver for C02 is not built yet"
-  return 2
+import Rivaas.Spec.Chain
+import Rivaas.Spec.Compose
+/-
+Driver for C02. Case line (see harness/c02/main.go):
+
+  <id> <check> <script> <target> <path> <ver> <behaviours> => <probe> <trace> <status> <body> <escaped>
+
+  script     = n op…            op = NR | U r hs | G r seg hs | SG g seg hs | GU g hs | V r ver | VG v seg hs
+                                     | R owner seg hs | M parent sub seg inherit hs | W r
+                                     | AU hs | AG seg hs arr cap | ASG g seg hs | AGU g hs | AV ver
+                                     | AVSG vg seg hs | AVU vg hs | AR aowner seg hs h hs
+  owner      = r k | g k | v k | vg k          aowner = a | ag k | avg k          hs = n id…
+  target     = (n mountIdx…) routeIdx          path = n seg…          ver = 0 | 1 v
+  behaviours = n (hid acts)…    acts = n act…   act = N | A | C | W | R | P v | K acts
+  probe      = 0 | 1 (n hid…)   chain observed with every handler passing through
+  trace      = n ev…            ev = e<hid> | x<hid> | u<hid>
+  status     = HTTP status      body = n chunk… (chunk = hid, 100000 = recovery's 500 body)
+  escaped    = 0 | 1 v
+-/
+namespace Rivaas.DriverC02
+open Rivaas.Proto Rivaas.Chain Rivaas.Compose
+
+def pHs : P (List Nat) := list nat
+
+def pOwner : P Owner := do
+  let k ← tok
+  let n ← nat
+  if k == "r" then pure (.router n) else if k == "g" then pure (.group n)
+  else if k == "v" then pure (.vrouter n) else if k == "vg" then pure (.vgroup n) else failure
+
+def pAOwner : P AOwner := do
+  let k ← tok
+  if k == "a" then pure .app
+  else if k == "ag" then AOwner.agroup <$> nat
+  else if k == "avg" then AOwner.avgroup <$> nat
+  else failure
+
+def pOp : P Op := do
+  let k ← tok
+  if k == "NR" then pure .newRouter
+  else if k == "U" then do let r ← nat; let hs ← pHs; pure (.use r hs)
+  else if k == "G" then do let r ← nat; let s ← nat; let hs ← pHs; pure (.group r s hs)
+  else if k == "SG" then do let g ← nat; let s ← nat; let hs ← pHs; pure (.subgroup g s hs)
+  else if k == "GU" then do let g ← nat; let hs ← pHs; pure (.guse g hs)
+  else if k == "V" then do let r ← nat; let v ← nat; pure (.version r v)
+  else if k == "VG" then do let v ← nat; let s ← nat; let hs ← pHs; pure (.vgroup v s hs)
+  else if k == "R" then do let o ← pOwner; let s ← nat; let hs ← pHs; pure (.route o s hs)
+  else if k == "M" then do
+    let p ← nat; let sub ← nat; let s ← nat; let inh ← bool; let hs ← pHs; pure (.mount p sub s inh hs)
+  else if k == "W" then Op.warmup <$> nat
+  else if k == "AU" then Op.ause <$> pHs
+  else if k == "AG" then do let s ← nat; let hs ← pHs; let a ← nat; let c ← nat; pure (.agroup s hs a c)
+  else if k == "ASG" then do let g ← nat; let s ← nat; let hs ← pHs; pure (.asubgroup g s hs)
+  else if k == "AGU" then do let g ← nat; let hs ← pHs; pure (.aguse g hs)
+  else if k == "AV" then Op.aversion <$> nat
+  else if k == "AVSG" then do let g ← nat; let s ← nat; let hs ← pHs; pure (.avsubgroup g s hs)
+  else if k == "AVU" then do let g ← nat; let hs ← pHs; pure (.avuse g hs)
+  else if k == "AR" then do
+    let o ← pAOwner; let s ← nat; let b ← pHs; let h ← nat; let a ← pHs; pure (.aroute o s b h a)
+  else failure
+
+/-- acts, with a depth bound on `K` nesting (the parser is structurally recursive on it) -/
+def pActs : Nat → P (List Act)
+  | 0 => failure
+  | d+1 => list do
+    let k ← tok
+    if k == "N" then pure Act.next else if k == "A" then pure .abort else if k == "C" then pure .cancel
+    else if k == "W" then pure .write else if k == "R" then pure .ret
+    else if k == "P" then Act.panic <$> nat
+    else if k == "K" then Act.call <$> pActs d
+    else failure
+
+structure Case where
+  check : Bool
+  script : List Op
+  target : Target
+  path : Path
+  ver : Option Nat
+  beh : List (Nat × List Act)
+
+def pCase : P Case := do
+  let check ← bool
+  let script ← list pOp
+  let mounts ← list nat
+  let route ← nat
+  let path ← list nat
+  let ver ← opt nat
+  let beh ← list (do let h ← nat; let a ← pActs 8; pure (h, a))
+  pure { check, script, target := { mounts, route }, path, ver, beh }
+
+/-- observation in handler ids -/
+structure Obs where
+  probe : Option (List Nat)
+  trace : List (Char × Nat)
+  status : Nat
+  body : List Nat
+  escaped : Option Nat
+  deriving BEq
+
+def pEv : P (Char × Nat) := do
+  let t ← tok
+  match t.toList with
+  | c :: rest =>
+    match (String.ofList rest).toNat? with
+    | some n => if c == 'e' || c == 'x' || c == 'u' then pure (c, n) else failure
+    | none => failure
+  | [] => failure
+
+def pObs : P Obs := do
+  let probe ← opt (list nat)
+  let trace ← list pEv
+  let status ← nat
+  let body ← list nat
+  let escaped ← opt nat
+  pure { probe, trace, status, body, escaped }
+
+def recChunk : Nat := 100000
+
+/-- position-indexed machine output rendered in handler ids -/
+def evId (chain : List Nat) : Ev → Char × Nat
+  | .enter k => ('e', chain.getD k 0)
+  | .exit k => ('x', chain.getD k 0)
+  | .unwound k => ('u', chain.getD k 0)
+
+def chunkId (chain : List Nat) : Chunk → Nat
+  | .h k => chain.getD k 0
+  | .rec500 => recChunk
+
+/-- status code a chunk's writer sends: handler `h` answers `210 + h % 80`, recovery 500 -/
+def chunkStatus (chain : List Nat) : Option Chunk → Nat
+  | none => 200
+  | some (.h k) => 210 + chain.getD k 0 % 80
+  | some .rec500 => 500
+
+def progsOf (c : Case) (chain : List Nat) : Option (List Prog) :=
+  chain.mapM fun h => (c.beh.find? (·.1 == h)).map fun p => ({ acts := p.2 } : Prog)
+
+def showObs (o : Obs) : String :=
+  let pr := match o.probe with
+    | none => "0"
+    | some ch => s!"1 {ch.length} " ++ " ".intercalate (ch.map toString)
+  let tr := " ".intercalate (o.trace.map fun (c, n) => s!"{c}{n}")
+  let bd := " ".intercalate (o.body.map toString)
+  let es := match o.escaped with | none => "0" | some v => s!"1 {v}"
+  s!"{pr} {o.trace.length} {tr} {o.status} {o.body.length} {bd} {es}"
+
+/-- the model's observation: compose the chain, run the machine on it -/
+def modelObs (c : Case) : Option Obs :=
+  let cfg : Cfg := { check := c.check }
+  match compose c.script c.ver c.path with
+  | none => some { probe := none, trace := [], status := 404, body := [], escaped := none }
+  | some chain =>
+    match progsOf c chain with
+    | none => none
+    | some progs =>
+      let s := exec cfg progs
+      if !s.stack.isEmpty then none   -- out of fuel: never happens (Props/C02 `halts`)
+      else some { probe := some chain, trace := s.trace.map (evId chain), status := chunkStatus chain s.status,
+                  body := s.body.map (chunkId chain), escaped := s.escaped }
+
+/-- the oracle on what the implementation did: the observed chain is admitted by the composition
+    relation, and the observed trace is the reference interpreter's on that chain -/
+def specOK (c : Case) (o : Obs) : Bool :=
+  match o.probe with
+  | none => false
+  | some chain =>
+    chainOK c.script c.target chain &&
+    (match progsOf c chain with
+     | none => false
+     | some progs =>
+       let (r, esc) := ref c.check progs
+       o.trace == r.trace.map (evId chain) && o.escaped == esc)
+
+def step (line : String) : String :=
+  match splitCase line with
+  | none => "? bad-line"
+  | some (id, inp, obs) =>
+    match runP pCase inp, runP pObs obs with
+    | some c, some o =>
+      match levels c.script c.target with
+      | none => s!"{id} bad-case target does not resolve in the script"
+      | some (ver, path, _) =>
+        if ver != c.ver || path != c.path then s!"{id} bad-case path/version of the target disagree with the script"
+        else
+          match modelObs c with
+          | none => s!"{id} bad-case model could not run (missing behaviour or fuel)"
+          | some m =>
+            let d := if dK02b c.script c.target then "K02b" else "-"
+            verdict id (m == o) (specOK c o) d (showObs m)
+    | _, _ => s!"{id} bad-case"
+
+end Rivaas.DriverC02
+
+def main : IO UInt32 := Rivaas.Proto.driverMain Rivaas.DriverC02.step
